@@ -101,6 +101,8 @@ class SpecialAttributesDict(dict):
                 tag.style = StyleAttribute(value, tag)
             else:
                 tag.style = value
+            # The setter for style keeps the "style" key present exactly when the style is non-empty
+            return
         elif key == 'class':
             # The setter for className will perform necessary stripping
             tag.className = value
